@@ -1,6 +1,7 @@
 import AkVerif.Gen.C17
 import AkVerif.Lemmas.HttpConn
 import AkVerif.Lemmas.HttpConnHeap
+import AkVerif.Lemmas.HttpConnB64
 /-!
 # C17 — layered HTTP connections compose adapters without side effects
 
@@ -22,6 +23,52 @@ open HttpConn Ak
 /-- Every heap reachable by any history of operations satisfies the separation invariant. -/
 theorem reachable_inv (ops : List Op) : Inv (run Heap.empty ops) :=
   run_inv Inv.empty ops
+
+/-- In a heap satisfying the invariant every connection has a view: the hypotheses
+`viewCore H c = some v` of the theorems below hold for every connection of every reachable heap, and
+a request with valid dictionary references never ends in the model's internal `KeyError`. -/
+theorem view_defined (H : Heap) (hi : Inv H) (c : Nat) (hc : c < H.conns.length) (args : Args)
+    (hh : ∀ n, args.headers = some n → n < H.dicts.length)
+    (hp : ∀ n, args.params = some n → n < H.dicts.length) :
+    (∃ v, viewCore H c = some v) ∧ sentCore H c args ≠ .error .keyError := by
+  obtain ⟨cn, hcn⟩ : ∃ cn, H.conns[c]? = some cn := ⟨H.conns[c], by simp [hc]⟩
+  obtain ⟨h1, h2⟩ := hi.conn_ok c cn hcn
+  have hv : viewCore H c = some (cn, H.impls[cn.impl].address, H.impls[cn.impl].sendIds, H.lists[cn.alist]) :=
+    viewCore_some_iff.mpr ⟨H.impls[cn.impl], hcn, by simp [h2], by simp [h1], rfl, rfl⟩
+  refine ⟨⟨_, hv⟩, ?_⟩
+  have od : ∀ r : Option Nat, (∀ n, r = some n → n < H.dicts.length) → ∃ d, optDict H r = some d := by
+    intro r hr
+    cases r with
+    | none => exact ⟨none, rfl⟩
+    | some n =>
+      have hn := hr n rfl
+      exact ⟨some H.dicts[n], by simp [optDict, hn]⟩
+  obtain ⟨hd, hhd⟩ := od _ hh
+  obtain ⟨pd, hpd⟩ := od _ hp
+  rw [sentCore_eq, hv, hhd, hpd]
+  simp only [pureSend]
+  cases hr : applyAll H.lists[cn.alist] { path := args.path, headers := copyHeaders hd } with
+  | ok ra => simp
+  | error e =>
+    simp only []
+    intro he
+    cases he
+    have : ∀ (as : List Adapter) (ra : RA), applyAll as ra ≠ .error .keyError := by
+      intro as
+      induction as with
+      | nil => intro ra h; cases h
+      | cons a as ih =>
+        intro ra h
+        simp only [applyAll] at h
+        cases h1 : applyReq a ra with
+        | ok r1 => rw [h1] at h; exact ih r1 h
+        | error e =>
+          rw [h1] at h; cases h
+          cases a with
+          | pfx p => cases h1
+          | auth k hv => simp only [applyReq] at h1; split at h1 <;> cases h1
+          | trace t => simp only [applyReq] at h1; split at h1 <;> cases h1
+    exact this _ _ hr
 
 /-- A request through `c` is a function of `c`'s view and of the dictionaries the caller passes:
 the adapters applied are exactly the current content of `c.adapters`, by `applyAll`, each once and in
@@ -159,6 +206,26 @@ theorem auth_decodes (b64 : List Nat → Str) (dec : Str → Option (List Nat)) 
   refine ⟨⟨_, rfl, List.prefix_append _ _, ?_⟩, ⟨_, rfl, List.prefix_append _ _, ?_⟩, rfl⟩ <;>
     simp [List.drop_left', law]
 
+/-- The same for the encoder the driver actually runs (`b64enc`, compared with `base64.b64encode`
+by the correspondence runs): it has a decoder `b64dec`, so the header value of the basic and client
+adapters decodes to exactly the configured credentials. -/
+theorem auth_decodes_b64 (login pw : Str) :
+    ∃ v, mkBasic b64enc login pw = .auth .basic (.bytes v) ∧
+      mkClient b64enc login pw = .auth .client (.bytes v) ∧ "Basic ".toList <+: v ∧
+      b64dec (v.drop 6) = some (utf8s (login ++ ':' :: pw)) := by
+  have law : ∀ x : Str, b64dec (b64enc (utf8s x)) = some (utf8s x) := fun x =>
+    b64dec_b64enc _ (by
+      intro b hb
+      simp only [utf8s, List.mem_flatMap] at hb
+      obtain ⟨c, _, hc⟩ := hb
+      exact utf8_lt c b hc)
+  refine ⟨_, rfl, rfl, List.prefix_append _ _, ?_⟩
+  have : Gen.C17.basicPrefix.length = 6 := by decide
+  rw [← this, List.drop_left']
+  · have e : login ++ Gen.C17.credSep ++ pw = login ++ ':' :: pw := by simp [Gen.C17.credSep]
+    rw [e]; exact law _
+  · rfl
+
 /-- the literals of the statement, as generated from the source -/
 theorem literals : Gen.C17.authHeader = "Authorization".toList ∧ Gen.C17.basicPrefix = "Basic ".toList ∧
     Gen.C17.clientPrefix = "Basic ".toList ∧ Gen.C17.bearerPrefix = "Bearer ".toList ∧
@@ -220,6 +287,22 @@ theorem frame (H : Heap) (hi : Inv H) (ops : List Op) (c : Nat) (hc : c < H.conn
     sentCore (run H ops) c args = sentCore H c args := by
   obtain ⟨_, y, hy⟩ := run_mono H ops
   rw [sentCore_eq, sentCore_eq, run_view hi hc ops hno, optDict_ext y hy _ hh, optDict_ext y hy _ hp]
+
+/-- **A connection depends only on its own construction and its own `add_adapter` calls.** From the
+moment `cls(parent, adapters=own)` returns, through every history without `add_adapter` on the new
+connection itself, its adapters are `own ++` (the parent's adapters at construction): later
+`add_adapter` on the parent, on siblings, mutation of the list object that was passed, clones, cached
+prefix connections … do not show through it. -/
+theorem chain_stable (H H' : Heap) (hi : Inv H) (p n : Nat) (own : Own) (plain : Bool)
+    (h : mkConn H (.conn p) own plain = some (H', n))
+    (pc : Conn) (addr : Str) (sid : Bool) (pl as : List Adapter)
+    (hv : viewCore H p = some (pc, addr, sid, pl)) (ho : ownAdapters H own = some as)
+    (ops : List Op) (hno : ∀ op ∈ ops, ¬ op.addsTo n) :
+    viewCore (run H' ops) n = some (⟨pc.impl, H.lists.length, plain⟩, addr, sid, as ++ pl) := by
+  obtain ⟨hn, hview⟩ := viewCore_mkConn_new h hv ho
+  obtain ⟨hi', _, hlen⟩ := hi.mkConn h
+  rw [run_view hi' (by omega) ops hno]
+  exact hview
 
 /-- **The caller's objects are never written.** No history changes a dictionary the caller created
 (headers / params), and a list of adapters of the caller changes only by the caller's own appends. -/
